@@ -48,6 +48,7 @@ type Scenario struct {
 	ServerID    uint32
 	ReadTimeout bool
 	Scribble    bool
+	LateScribble bool // C08: overwrite all retained transactions after the run, in order
 	Attempts    []AttemptPlan
 	StepCap     int
 	FreeRun     bool // race mode: no stepping (see race.go)
@@ -124,6 +125,7 @@ type Run struct {
 	lastAcceptedNext Pos
 	haveAccepted bool
 	Stability []string // C08: differences between snapshot and live object
+	LateScribble []string // C08: sharing between retained transactions
 	HarnessErr string
 	BubbleDeadlock string
 	free *freeState
@@ -275,6 +277,51 @@ func scribble(tx *gobinlog.Transaction, snap *SnapTx) string {
 			}
 		}
 	}
+	// everything else that is reachable through a pointer and could be shared:
+	// statement charsets (checked one by one), then column descriptors, row and
+	// event slots
+	for ei, e := range tx.Events {
+		if e == nil || e.Query.Charset == nil {
+			continue
+		}
+		e.Query.Charset.Client, e.Query.Charset.Conn, e.Query.Charset.Server = -1, -1, -1
+		for k := ei + 1; k < len(tx.Events) && note == ""; k++ {
+			o := tx.Events[k]
+			if o == nil || o.Query.Charset == nil || snap.Events[k].Charset == nil {
+				continue
+			}
+			w := snap.Events[k].Charset
+			if o.Query.Charset.Client != w[0] || o.Query.Charset.Conn != w[1] || o.Query.Charset.Server != w[2] {
+				note = fmt.Sprintf("overwriting the charset of change %d changed the charset of change %d", ei, k)
+			}
+		}
+	}
+	for _, e := range tx.Events {
+		if e == nil {
+			continue
+		}
+		for _, rows := range [][]*gobinlog.RowData{e.RowValues, e.RowIdentifies} {
+			for _, r := range rows {
+				if r == nil {
+					continue
+				}
+				for ci, c := range r.Columns {
+					if c != nil {
+						c.Filed, c.Type, c.IsEmpty, c.Data = "scribbled", 0, !c.IsEmpty, nil
+					}
+					r.Columns[ci] = nil
+				}
+			}
+			for ri := range rows {
+				rows[ri] = nil
+			}
+		}
+		e.Query.SQL, e.Query.Database, e.Table.TableName = "scribbled", "scribbled", "scribbled"
+	}
+	for i := range tx.Events {
+		tx.Events[i] = nil
+	}
+	tx.NowPosition.Filename, tx.NextPosition.Filename = "scribbled", "scribbled"
 	return note
 }
 
@@ -1096,6 +1143,24 @@ func (r *Run) finalCleanup() {
 			if c.Live != nil && c.Snap != nil {
 				if d := snapDiff(c.Snap, snapshotTx(c.Live)); d != "" {
 					r.Stability = append(r.Stability, fmt.Sprintf("delivery %d changed after it was handed over: %s", i, d))
+				}
+			}
+		}
+		// late overwriting consumer: every retained transaction is overwritten in
+		// delivery order after the stream has ended; a transaction not yet
+		// overwritten must still equal its snapshot (sharing between transactions)
+		if r.sc.LateScribble && len(r.Stability) == 0 {
+			for i, c := range r.calls {
+				if c.Live == nil || c.Snap == nil {
+					continue
+				}
+				if d := snapDiff(c.Snap, snapshotTx(c.Live)); d != "" {
+					r.LateScribble = append(r.LateScribble, fmt.Sprintf("overwriting earlier deliveries changed delivery %d: %s", i, d))
+					break
+				}
+				if n := scribble(c.Live, c.Snap); n != "" {
+					r.LateScribble = append(r.LateScribble, fmt.Sprintf("delivery %d: %s", i, n))
+					break
 				}
 			}
 		}
